@@ -275,6 +275,19 @@ func registerRT(e *Engine) {
 		t := a[0].(VTime)
 		return VBig{T: Add(Mul(t.Sec, IntC64(1000000000)), t.Nsec)}
 	})
+	rt("CloneBytes", func(p *Path, a []Value) Value {
+		switch x := a[0].(type) {
+		case VBlob:
+			return x // marshalled values are immutable
+		case VSlice:
+			if x.Nil {
+				return x
+			}
+			es := append([]Value{}, x.elems()...)
+			return VSlice{Obj: p.newObj(&VArray{E: es}, "clone"), Len: len(es), Cap: len(es)}
+		}
+		panic(engErr("rt.CloneBytes on %T", a[0]))
+	})
 	rt("StrLen", func(p *Path, a []Value) Value { return VInt{StrLen(tStr(a[0]))} })
 	// StrEq(a, b) == (a == b); the engine adds a structurally derived sufficient condition as a
 	// disjunct so that equalities of rendered integers are provable by integer reasoning alone
